@@ -17,8 +17,9 @@ Sub-oracles (K = 10; rtol, atol are the tolerances given to the solver)
                  measured by the reference) + K atol / Tn
   kappa          efficiencyFactor(vw) at rtol = 1e-8 equals the kinetic-energy integral of the reference
                  profile started from the returned wall states (shock wave in front; rarefaction wave
-                 behind hybrids and detonations): relative difference <= KAPPA_REL, and the difference does
-                 not grow when going from rtol = 1e-6 to 1e-8 (two-level rule)
+                 behind hybrids and detonations): relative difference <= KAPPA_REL = 5e-3, and the difference does
+                 not grow when going from rtol = 1e-6 to 1e-8 (two-level rule); cases with -0.1 <= vw - vJ <= 0.01
+                 carry the class suffix /near-vJ
   tol-honoured   as in C02: a shock-Tn failure under the tightened setting (1e-9, 1e-12) that passes under
                  the default (1e-6, 1e-10)
 """
@@ -49,14 +50,16 @@ BUDGET = {
 K = 10.0
 DEFAULT_TOL = (1e-6, 1e-10)
 KAPPA_RTOL = 1e-8
-KAPPA_REL = 1e-2
+KAPPA_REL = 5e-3
 TOLERANCES = {
     "K": K,
     "shock_Tn": "K(atol+rtol Tn) + |dTn'/dv+| K(atol+rtol v+) + Tn K(atol+rtol T+)/T+",
     "direct": "K rtol (1 + |dlnTn'/dln xi_w| + |dlnTn'/dln T+|) + K atol/Tn",
     "kappa_rel": KAPPA_REL,
-    "kappa_note": "repo's own 1e-2 at rtol=1e-8 (tests/test_Hydrodynamics.py); measured envelope on the unchanged "
-                  "tree is recorded in info.kappa_rel_err; plus err(1e-8) <= 2 err(1e-6) + 1e-4",
+    "kappa_note": "two-level rule: started from the repo's own 1e-2 at rtol=1e-8 (tests/test_Hydrodynamics.py) and "
+                  "tightened to ~7x the envelope measured on the unchanged tree away from vJ (max 6.6e-4 over 201 "
+                  "generated cases, seed 11; near vJ the envelope is 1.4e-2, see class */near-vJ); plus "
+                  "err(1e-8) <= 2 err(1e-6) + 1e-4",
     "reference": "DOP853 rtol 1e-11, atol_v 1e-15; validated against bag closed forms (python -m vlib.refhydro)",
 }
 ASSUMPTIONS = [
@@ -176,25 +179,8 @@ def _nontrivial_shock(sh, eos):
 # kind: matching
 # ---------------------------------------------------------------------------------------------
 def tn_bound(eos, Tn, vw, vp, vm, Tp, Tm, branch, rtol, atol):
-    """Allowed |Tn' - Tn| for a returned matching; the slope dTn'/dv+ is measured along the exact wall
-    junctions around the returned one.  Returns (bound, slope) or raises RefFailure."""
-    h = 1e-6
-    pts = []
-    for s in (-1.0, 1.0):
-        x = vp * (1.0 + s * h)
-        if not 0.0 < x < vw:
-            continue
-        Tpx, Tmx, vmx, kindx = R.junction_at_vp(eos, x, vw, Tn, (Tp, Tm, branch))
-        sh = R.integrate_shock(eos, vw, x, Tpx, want_kappa=False)
-        if not sh.ok:
-            raise R.RefFailure(f"slope-shock:{sh.reason}")
-        pts.append((x, sh.Tn_out))
-    if len(pts) == 2:
-        slope = (pts[1][1] - pts[0][1]) / (pts[1][0] - pts[0][0])
-    else:
-        raise R.RefFailure("slope-one-sided")
-    b = K * (atol + rtol * Tn) + abs(slope) * K * (atol + rtol * vp) + Tn * K * (atol + rtol * Tp) / Tp
-    return b, slope
+    """Allowed |Tn' - Tn| for a returned matching (shared with C02): see refhydro.shock_backward_bound."""
+    return R.shock_backward_bound(eos, Tn, vw, vp, vm, Tp, Tm, branch, rtol, atol, K)
 
 
 def check_matching(case, v: Verdict):
@@ -440,7 +426,7 @@ def check_kappa(case, v: Verdict):
     branch = Z.branch_of(vw, vp, vm)
     bucket = Z.speed_bucket(vw)
     v.label("outcome:value", f"branch:{branch}", f"speed:{bucket}")
-    near_vj = -0.05 <= vw - vJ <= 0.005
+    near_vj = -0.1 <= vw - vJ <= 0.01
     if near_vj:
         v.label("near-vJ")
     cls = f"{solver}/{fam}/{branch}/{bucket}" + ("/near-vJ" if near_vj else "")
